@@ -286,6 +286,30 @@ def _e2e(res, found):
             found.append(("e2e:%s:%s" % ("accepts-invalid" if accepted else "rejects-valid", classify(nm)),
                           "`cond run --check` with task name %r: exit %r, stderr %r" % (nm, r.exit, r.err_text[:200]),
                           {"name": nm}))
+    # one grammar for every command: run --check, where and archive accept / reject the same spellings of an identifier
+    files = {"COND": 'run_experiment(name="top", run="true")\n', "exp/COND": 'run_experiment(name="bench", run="true")\n'}
+    spellings = [("//exp:bench", True), ("exp:bench", True), ("//:top", True), (":top", True), ("//exp/:bench", None), ("exp/:bench", None),
+                 ("//exp:bench\n", False), ("exp bench", False), ("//exp:", False), ("exp", False), ("///exp:bench", False), ("//exp::bench", False)]
+    rows = [("//exp:bench", 5, None, 0), ("//:top", 6, None, 0)]
+    pre = {"cond-out/exp/bench.task.5/f": "x", "cond-out/top.task.6/f": "y"}
+    for sp, ok in spellings:
+        verdicts = {}
+        for cmd in (["run", sp, "--check"], ["where", sp], ["archive", sp, "-o", "OUT"]):
+            res["evals"] += 1
+            root = driver.fresh_project(files, name="e2e2", index_rows=rows, pre_tree=pre)
+            argv = [a if a != "OUT" else os.path.join(root, "o.tar.gz") for a in cmd]
+            r = driver.run_cli(argv, root, git=fakegit.NO_GIT)
+            invalid = "invalid" in r.err_text.lower() and "identifier" in r.err_text.lower()
+            verdicts[cmd[0]] = "rejected-as-invalid" if (r.exit != 0 and invalid) else ("ok" if r.exit == 0 else "other-error")
+            if r.exc is not None:
+                verdicts[cmd[0]] = "exception:%s" % type(r.exc).__name__
+        res["sigs"].add("cli:%r" % sp)
+        if len(set(verdicts.values())) != 1:
+            found.append(("cli:commands-disagree", "identifier %r: %s (every command must apply the same grammar)" % (sp, verdicts), {"name": sp}))
+        elif ok is True and set(verdicts.values()) != {"ok"}:
+            found.append(("cli:valid-rejected", "identifier %r rejected: %s" % (sp, verdicts), {"name": sp}))
+        elif ok is False and set(verdicts.values()) == {"ok"}:
+            found.append(("cli:invalid-accepted", "identifier %r accepted by all commands" % (sp,), {"name": sp}))
     res["sample"] = res["sample"] or {"cond_name": "a\\n", "expected": "rejected with ERROR"}
 
 
